@@ -28,6 +28,7 @@ import (
 type asample struct {
 	Stack []string `json:"stack"` // leaf first
 	V     []int64  `json:"v"`
+	B     bool     `json:"b"` // carries the diff-base mark (observed on the profile handed to the Symbolizer)
 }
 type asrc struct {
 	Name    string    `json:"name"`
@@ -48,6 +49,7 @@ type event struct {
 	Run      int       `json:"run"`
 	Srcs     []asrc    `json:"srcs,omitempty"`
 	Bases    []asrc    `json:"bases"`
+	Diff     bool      `json:"diff"` // the bases were given with -diff_base
 	Drop     []string  `json:"drop"`
 	Keep     []string  `json:"keep"`
 	Src      string    `json:"src,omitempty"`
@@ -254,7 +256,7 @@ func (s symRec) Symbolize(mode string, srcs plugin.MappingSources, p *profile.Pr
 		for _, f := range vlib.FramesOf(sm) {
 			st = append(st, f.Name)
 		}
-		e.Samples = append(e.Samples, asample{Stack: st, V: append([]int64{}, sm.Value...)})
+		e.Samples = append(e.Samples, asample{Stack: st, V: append([]int64{}, sm.Value...), B: sm.DiffBaseSample()})
 	}
 	s.rc.add(e)
 	return nil
@@ -400,7 +402,9 @@ func oneRun(id int, r *vlib.Rand) {
 	unsym := r.Intn(3) == 0
 	ctxOf := map[string]interface{}{"srcs": srcs, "bases": bases, "drop": drop, "keep": keep, "unsymbolized": unsym}
 	rc := &recorder{}
-	rc.add(event{Ev: "config", Srcs: srcs, Bases: bases, Drop: drop, Keep: keep})
+	diff := len(bases) > 0 && r.Intn(2) == 0
+	ctxOf["diff_base"] = diff
+	rc.add(event{Ev: "config", Srcs: srcs, Bases: bases, Diff: diff, Drop: drop, Keep: keep})
 	cseed := int64(r.Intn(1000))
 	fetch := func(src string) (*profile.Profile, error) {
 		rc.add(event{Ev: "fetch", Src: src})
@@ -426,7 +430,11 @@ func oneRun(id int, r *vlib.Rand) {
 	}
 	var srcArgs []string
 	for _, b := range bases {
-		srcArgs = append(srcArgs, "-base="+b.Name)
+		if diff {
+			srcArgs = append(srcArgs, "-diff_base="+b.Name)
+		} else {
+			srcArgs = append(srcArgs, "-base="+b.Name)
+		}
 	}
 	for _, s := range srcs {
 		srcArgs = append(srcArgs, s.Name)
@@ -650,5 +658,5 @@ func main() {
 	for i := 0; i < n; i++ {
 		oneRun(i, r)
 	}
-	run.Finish("whole runs of driver.PProf observed at the plug-in boundaries: 1-3 sources and 0-2 -base sources (each failing with probability 1/5), profile-level drop/keep frame rules, sources that are symbolized or address-only (the names then come from the Symbolizer plug-in, before the drop rules apply), x command-line mode, interactive sessions of 1-5 lines (focus / ignore / hide / show / sample_index / relative_percentages assignments, top / traces reports with per-command arguments, rejected and ignored lines) or a web server answering /top requests with per-request options, concretised with varying id layouts; every boundary event validated by TLC against the machine of Pprof.tla; non-trivial = distinct (mode, sources, lines)")
+	run.Finish("whole runs of driver.PProf observed at the plug-in boundaries: 1-3 sources and 0-2 -base or -diff_base sources (each failing with probability 1/5), profile-level drop/keep frame rules, sources that are symbolized or address-only (the names then come from the Symbolizer plug-in, before the drop rules apply), x command-line mode, interactive sessions of 1-5 lines (focus / ignore / hide / show / sample_index / relative_percentages assignments, top / traces reports with per-command arguments, rejected and ignored lines) or a web server answering /top requests with per-request options, concretised with varying id layouts; every boundary event validated by TLC against the machine of Pprof.tla; non-trivial = distinct (mode, sources, lines)")
 }
